@@ -67,6 +67,17 @@ theorem pointer_passes_shallow_validators (std : Stdlib) (t : VTag) (x : GoVal)
         · simp [h2, h3, h4, h5, validateRequired, GoVal.isNilIface, isZeroNum, validateNonEmpty]
         · simp [h2, h3, h4, h5]
 
+/-- **The open finding D55, as the model has it**: a pre-filled pointer to a number passes `min` whatever the number is -
+validation hands the validators the pointer, and `min` / `max` / `positive` look at the kind of what they are handed. (What the
+configuration sets is validated as the value itself; `unpack_plain_valid` below is about `recValidate`, i.e. about validation as
+validator.go does it, which is weaker than the statement of C04 at exactly this point.) -/
+theorem prefilled_pointer_passes_min_D55 (std : Stdlib) (o : Opts) (param : String) (i : Int) :
+    recValidate std o (.ptr (.prim (.int 64))) [⟨"min", param⟩] (.ptr (some (.scalar (.int i)))) = none := by
+  unfold recValidate
+  simp [runValidators, List.findSome?, runValidator, validateBound]
+  unfold recValidate
+  simp [runValidators]
+
 /-- nonzero follows pointers: a pointer to a number is checked like the number -/
 theorem nonzero_follows_pointer_int (i : Int) :
     validateNonZero (.ptr (some (.scalar (.int i)))) = validateNonZero (.scalar (.int i)) := by
